@@ -54,12 +54,31 @@ Section Oracle.
     let e := hash_at HO (crows c) (clay c) p in
     Heqb res e || (negb full && Heqb res empty).
 
-  (** the one listed exception (known finding D7): a map forest allocated higher than needed answers
-      a read beyond the minimal geometry with the node that the position denotes in its own
-      (TotalRows) coordinates *)
-  Definition gethash_d7_class (c : ctx) (total : nat) (p : N) (res : H) : bool :=
-    Nat.ltb (crows c) total && (2 ^ (N.of_nat (crows c) + 1) - 2 <? p)
-    && negb (Heqb res empty) && Heqb res (hash_at HO total (clay c) p).
+  (** ** Map forests allocated higher than needed ([TotalRows > TreeRows]) accept positions in
+      either coordinate system: a position of the minimal geometry is read there; a position
+      beyond the minimal geometry is read in the forest's own [total]-row coordinates (the code
+      translates explicitly and the repository's tests pass such coordinates on purpose).
+      [dual_node] is the node a position denotes under that reading. *)
+  Fixpoint decode_pos (fuel : nat) (rows r : nat) (p : N) : option (nat * N) :=
+    match fuel with
+    | O => None
+    | S f =>
+        let s := pos rows r 0 in
+        let w := 2 ^ N.of_nat (rows - r) in
+        if p <? s then None
+        else if p <? s + w then Some (r, p - s)
+        else if Nat.ltb r rows then decode_pos f rows (S r) p else None
+    end.
+  Definition dual_node (c : ctx) (total : nat) (p : N) : option node :=
+    if Nat.ltb (crows c) total && (2 ^ (N.of_nat (crows c) + 1) - 2 <? p) then
+      match decode_pos 70 total 0 p with
+      | Some (r, o) => find_coord (clay c) r o
+      | None => None
+      end
+    else find_pos (crows c) (clay c) p.
+  Definition chk_gethash_dual (c : ctx) (full : bool) (total : nat) (p : N) (res : H) : bool :=
+    let e := match dual_node c total p with Some x => nhash x | None => empty end in
+    Heqb res e || (negb full && Heqb res empty).
 
   (** C02: canonical proofs *)
   Definition exp_prove (c : ctx) (hs : list H) : option (list N * list H) :=
@@ -108,6 +127,18 @@ Section Oracle.
     | _, _ => false
     end.
 
+  Definition claim_true_dual (c : ctx) (total : nat) (p : N) (h : H) : bool :=
+    match dual_node c total p with
+    | Some x => Heqb (nhash x) h
+    | None => false
+    end.
+  Fixpoint claims_true_dual (c : ctx) (total : nat) (ts : list N) (hs : list H) : bool :=
+    match ts, hs with
+    | [], [] => true
+    | t :: ts', h :: hs' => claim_true_dual c total t h && claims_true_dual c total ts' hs'
+    | _, _ => false
+    end.
+
   Definition the_stump (c : ctx) : stump H := mkStump (croots c) (cn c).
 
   (** mirror outcome of Verify as a small code: 0 ok, 1 err, 2 panic, 3 out of fuel *)
@@ -117,6 +148,13 @@ Section Oracle.
     Verify HO true (the_stump c) hs ts pf.
   Definition mirror_pollard_verify (c : ctx) (hs : list H) (ts : list N) (pf : list H) : outcome unit :=
     PollardVerify HO true (the_stump c) hs ts pf.
+
+  (** [MapPollard.verify]: translate the targets from TotalRows to minimal coordinates, then Verify *)
+  Definition mirror_map_verify (c : ctx) (total : N) (hs : list H) (ts : list N) (pf : list H)
+    : outcome (list nat) :=
+    let tr := TreeRows (cn c) in
+    let ts' := if tr =? total then ts else translatePositions ts total tr in
+    Verify HO true (the_stump c) hs ts' pf.
 
   (** C11 / C04: Stump.Update mirrored on the reference's stump *)
   Definition mirror_update (filler : H) (c : ctx) (dels adds : list H) (ts : list N) (pf : list H) :=
